@@ -489,12 +489,15 @@ def _main(mod, modname, prop, a, seed, pool, t0):
           f'failed={len(by_name)} undecided={len(agg["undecided"])} backends={agg["by_backend"]} crosscheck={cc_total} wall={wall:.1f}s')
     for k, v in known_hit.items():
         print(f'KNOWN-FINDING: property={prop} {k} ({sum(v)} failing instances, recorded in known_findings.jsonl)')
+    confirmed = [v for v in violations if v[2]]
     if errors:
         for e in errors[:5]:
             print(f'CHECKER-ERROR property={prop}: {e["error"]}')
             if e.get('traceback'):
                 print(e['traceback'])
-        return EXIT_ERROR
+        if not confirmed:
+            return EXIT_ERROR
+        # a counterexample that replays on the real code stands on its own, even if other parts of the contract no longer bind
     if violations:
         for name, path, confirmed in violations:
             print(f'  failed obligation: {name}')
